@@ -9,10 +9,13 @@ def run(chk, repo, tier):
                        'reversal, for every L; the middle step is its own mirror.  Symmetry is what makes the method '
                        'time-reversible.')
     chk.rule('C09.R2', 'on the way right the split puts the singular values to the right neighbour, on the way left to the '
-                       'left one, so that every local step acts at the orthogonality centre (canonical-form intervals)')
+                       'left one, so that every local step acts at the orthogonality centre (canonical-form intervals); every local step '
+                       'receives the environments, the current MPO tensors and the state tensors of its own sites, never stale '
+                       '(the wiring rules of C08.R4: exactness on a complete manifold needs each sub-step to be the exact local flow)')
     for q in INTEGRATORS:
         sr.schedule_rules(chk, repo, q, rid_pal='C09.R1')
-        sr.emit(chk, repo, q, {'canonical': 'C09.R2', 'loop-invariant': 'C09.R2', 'loop-entry': 'C09.R2'})
+        sr.emit(chk, repo, q, {'canonical': 'C09.R2', 'loop-invariant': 'C09.R2', 'loop-entry': 'C09.R2', 'slot': 'C09.R2',
+                               'stale': 'C09.R2', 'outer-fixpoint': 'C09.R2'})
     chk.floor('C09.R1', 4, 4)
     chk.rule('C09.R3', 'the norm reported by a call is the factor of its initial right-orthonormalisation of the input, with '
                        'nothing changing psi before it (the reversibility statement multiplies the result by this number)')
